@@ -14,6 +14,15 @@ for tier in ("quick", "thorough"):
         v = re.findall(r"entry=(\S+) kind=(\S+) label=(\S+)", log)
         res[tier] = {"exit": rc, "verdict": {0: "missed", 1: "caught", 2: "inconclusive"}.get(rc, "error"),
                      "violations": sorted({f"{e}:{l}" for e, k, l in v})}
+bf = os.path.join(d, "check_quick_before.exit")
+if os.path.exists(bf):
+    lines = open(bf).read().split("\n")
+    rc = int(lines[0].strip())
+    log = open(os.path.join(d, "check_quick_before.log")).read()
+    v = re.findall(r"entry=(\S+) kind=(\S+) label=(\S+)", log)
+    res["quick_before_strengthening"] = {"exit": rc, "verdict": {0: "missed", 1: "caught", 2: "inconclusive"}.get(rc, "error"),
+                                         "verif_commit": lines[1].strip() if len(lines) > 1 else "",
+                                         "violations": sorted({f"{e}:{l}" for e, k, l in v})}
 demo = []
 for root, _, fs in os.walk(os.path.join(d, "demo")):
     for f in fs:
